@@ -49,6 +49,7 @@ def sample(Y, m=1, seed=None, unsert=1.E-10):
     for i, c in enumerate(Y[1:], start=1):
         p = np.einsum('ma,aib,b->mi', phi[i-1], Y[i], phi[i+1])
         p = np.maximum(p, 0)
+        p[p.sum(axis=1) <= 0] = 1.
         ind = [rand.choice(c.shape[1], p=pi/pi.sum()) for pi in p]
         ind = np.array(ind)
         res[:, i] = ind
